@@ -284,6 +284,15 @@ class SymSeq(SymObj):
     def stream(self, I):
         return Stream(self.length, None, [], self.elem)
 
+    def py_eq(self, I, other):
+        if isinstance(other, SymSeq):
+            i = I.fresh("qi", z3.IntSort())
+            return z3.And(self.length == other.length, z3.ForAll([i], z3.Implies(z3.And(0 <= i, i < self.length), I.eq_term(self.elem(i), other.elem(i)))))
+        if isinstance(other, (tuple, list)):
+            n = len(other)
+            return z3.And(self.length == n, *[I.eq_term(self.elem(z3.IntVal(j)), other[j]) for j in range(n)])
+        return NotImplemented
+
     def py_iter(self, I):
         return self.stream(I)
 
@@ -763,6 +772,10 @@ class Interp:
         return z3.BoolVal(r) if isinstance(r, bool) else r
 
     def eq(self, a, b):
+        if isinstance(a, ZV) and hasattr(a, "py_eq"):
+            r = a.py_eq(self, b)
+            if r is not NotImplemented:
+                return r
         if isinstance(a, ZV) and isinstance(b, ZV):
             if a.t.sort() == b.t.sort():
                 return a.t == b.t
@@ -1741,8 +1754,11 @@ def _boolish(v):
 
 
 def _pure_expr(node):
-    """Syntactically side-effect-free and cheap: names, constants, attributes, comparisons, not, bool ops."""
+    """Syntactically side-effect-free and exception-free: names, constants, comparisons, not, bool ops, and
+    attributes of the module-level enum/namespace objects only (attribute access on arbitrary objects may raise)."""
     for n in ast.walk(node):
         if isinstance(n, (ast.Call, ast.NamedExpr, ast.Yield, ast.YieldFrom, ast.Await, ast.Subscript, ast.ListComp, ast.GeneratorExp, ast.SetComp, ast.DictComp, ast.Lambda)):
+            return False
+        if isinstance(n, ast.Attribute) and not (isinstance(n.value, ast.Name) and n.value.id in ("Order", "inspect", "math")):
             return False
     return True
